@@ -6,12 +6,14 @@ package dtls
 import (
 	"bytes"
 	"encoding/gob"
+	"hash"
 	"sync/atomic"
 
 	"github.com/pion/dtls/v3/internal/ciphersuite"
 	dtlserrors "github.com/pion/dtls/v3/internal/errors"
 	dtlsstate "github.com/pion/dtls/v3/internal/state"
 	dtlsutil "github.com/pion/dtls/v3/internal/util"
+	"github.com/pion/dtls/v3/pkg/crypto/keyschedule"
 	"github.com/pion/dtls/v3/pkg/crypto/prf"
 	"github.com/pion/dtls/v3/pkg/protocol"
 	"github.com/pion/dtls/v3/pkg/protocol/handshake"
@@ -23,6 +25,7 @@ type State struct {
 	localEpoch, remoteEpoch   uint16
 	localRandom, remoteRandom handshake.Random
 	masterSecret              []byte
+	exporterMasterSecret      []byte // DTLS 1.3 only
 	sequenceNumber            uint64
 	srtpProtectionProfile     SRTPProtectionProfile
 	peerSRTPMKI               []byte
@@ -129,6 +132,7 @@ func generateState13(internalState *dtlsstate.State13) (*State, error) {
 		remoteEpoch:           common.RemoteEpoch(),
 		localRandom:           common.LocalRandom,
 		remoteRandom:          common.RemoteRandom,
+		exporterMasterSecret:  bytes.Clone(internalState.KeySchedule.ExporterMasterSecret),
 		sequenceNumber:        sequenceNumber,
 		srtpProtectionProfile: common.SRTPProtectionProfile(),
 		localConnectionID:     bytes.Clone(common.LocalConnectionID()),
@@ -325,6 +329,10 @@ func (s *State) ExportKeyingMaterial(label string, context []byte, length int) (
 		return nil, err
 	}
 
+	if s.version.Equal(protocol.Version1_3) {
+		return exportKeyingMaterial13(cipherSuite.HashFunc(), s.exporterMasterSecret, label, length)
+	}
+
 	localRandom := s.localRandom.MarshalFixed()
 	remoteRandom := s.remoteRandom.MarshalFixed()
 
@@ -336,6 +344,21 @@ func (s *State) ExportKeyingMaterial(label string, context []byte, length int) (
 	}
 
 	return prf.PHash(s.masterSecret, seed, length, cipherSuite.HashFunc())
+}
+
+// exportKeyingMaterial13 is the RFC 8446 section 7.5 exporter with an empty context:
+// HKDF-Expand-Label(Derive-Secret(exporter_master_secret, label, ""), "exporter", Hash(""), length).
+func exportKeyingMaterial13(hashFunc func() hash.Hash, exporterMasterSecret []byte, label string, length int) ([]byte, error) {
+	if len(exporterMasterSecret) == 0 {
+		return nil, dtlserrors.ErrHandshakeInProgress
+	}
+	emptyHash := hashFunc().Sum(nil)
+	derived, err := keyschedule.HkdfExpandLabel(hashFunc, exporterMasterSecret, label, emptyHash, len(emptyHash))
+	if err != nil {
+		return nil, err
+	}
+
+	return keyschedule.HkdfExpandLabel(hashFunc, derived, "exporter", emptyHash, length)
 }
 
 // RemoteRandomBytes returns the remote client hello random bytes.
